@@ -38,6 +38,9 @@ def worker_finish(tier, rec, st):
 
 
 PRE = """
+class Boom(Exception):
+    pass
+
 def tagger_single(cls):
     return 'T:' + cls.__name__
 
@@ -54,9 +57,9 @@ def run_case(seed, tier, rec, st):
     try:
         fam.exec_src(PRE)
         mod = fam.module
-        mode = rng.choice(["config", "annotated", "union", "tagger", "nofield"])
+        mode = rng.choice(["config", "annotated", "union", "tagger", "nofield", "nested"])
         lazy = "        lazy_compilation = True\n" if rng.random() < 0.15 else ""
-        mixin = "DataClassDictMixin" if (mode == "config" or rng.random() < 0.6) else ""
+        mixin = "DataClassDictMixin" if (mode in ("config", "nested") or rng.random() < 0.6) else ""
         base = f"({mixin})" if mixin else ""
         inc_super = rng.random() < 0.5
         tags = list(TAGS)
@@ -65,10 +68,10 @@ def run_case(seed, tier, rec, st):
         classes = {}      # name -> {"parent", "tag", "root"}
         order = []
 
-        def define(name, parent, tag, root, extra=""):
+        def define(name, parent, tag, root, extra="", tagfield="k"):
             body = []
             if tag is not None and mode != "tagger":
-                body.append(f"    k = {tag!r}")
+                body.append(f"    {tagfield} = {tag!r}")
             body.append(f"    f_{name}: int = 0")
             if extra:
                 body.append(extra)
@@ -79,7 +82,21 @@ def run_case(seed, tier, rec, st):
             events.append(("define", name, parent, tag))
             return src
         # ---- roots + wirings
-        if mode == "config":
+        if mode == "nested":
+            # two levels of tagging: R dispatches on 'k'; its variant Mid dispatches its own subtree on 'k2'
+            fam.exec_src("@dataclass\nclass R" + base + ":\n    f_R: int = 0\n    class Config(BaseConfig):\n"
+                         "        discriminator = Discriminator(field='k', include_subtypes=True)\n" + lazy)
+            classes["R"] = {"parent": None, "tag": None, "root": "R"}
+            order.append("R")
+            mid_tag = tags.pop()
+            define("Mid", "R", mid_tag, "R", extra="    class Config(BaseConfig):\n        discriminator = Discriminator(field='k2', include_subtypes=True)\n" + lazy)
+            inner = {}          # k2 tag -> class, within Mid's subtree
+            inner_order = ["Mid"]
+            roots = ["R"]
+            pdec = None
+            wirings = {"config": lambda d: mod.R.from_dict(d)}
+            eligible_root = False
+        elif mode == "config":
             root_tag = tags.pop() if rng.random() < 0.3 else None
             fam.exec_src("@dataclass\nclass R" + base + ":\n" + (f"    k = {root_tag!r}\n" if root_tag is not None else "") +
                          "    f_R: int = 0\n    class Config(BaseConfig):\n"
@@ -141,7 +158,23 @@ def run_case(seed, tier, rec, st):
                 name = f"C{ncls}"
                 if mode == "nofield":
                     parent = "R"
-                    define(name, parent, None, "R", extra=f"    r_{name}: int = field(kw_only=True)")
+                    extra = f"    r_{name}: int = field(kw_only=True)"
+                    if rng.random() < 0.5:
+                        # user code rejecting a value with its own exception type: the variant just does not fit
+                        extra += f"\n    def __post_init__(self):\n        " + rng.choice([
+                            f"if self.r_{name} == 13:\n            raise Boom('unlucky')", f"assert self.r_{name} != 13, 'unlucky'"])
+                        classes.setdefault("_rejecting", set()).add(name)
+                    define(name, parent, None, "R", extra=extra)
+                elif mode == "nested" and rng.random() < 0.6:
+                    parent = rng.choice(inner_order)
+                    tag = pending_tags.pop() if pending_tags and rng.random() < 0.4 else tags.pop()
+                    define(name, parent, tag, "R", tagfield="k2")
+                    classes[name]["inner"] = True
+                    inner[tag] = name
+                    inner_order.append(name)
+                elif mode == "nested":
+                    parent = rng.choice([c for c in order if c not in inner_order])
+                    define(name, parent, tags.pop(), "R")
                 else:
                     parent = rng.choice([c for c in order])
                     untagged = rng.random() < 0.2 and mode != "tagger"
@@ -162,14 +195,32 @@ def run_case(seed, tier, rec, st):
                 elif pick == "nobody":
                     d = {"f_R": "not-an-int"}
                     exp = ("err", "SuitableVariantNotFoundError")
+                elif pick in classes.get("_rejecting", ()) and rng.random() < 0.4:
+                    # the only fitting variant refuses the value from its own __post_init__: next variant / supertype
+                    d = {f"r_{pick}": 13, "f_R": 1}
+                    exp = ("cls", "R") if eligible_root else ("err", "SuitableVariantNotFoundError")
                 else:
                     d = {f"r_{pick}": 3, "f_R": 1}
                     exp = ("cls", pick)
-                status = pick if pick in ("R", "nobody") else "child"
+                status = pick if pick in ("R", "nobody") else ("child-rejecting" if d.get(f"r_{pick}") == 13 else "child")
+            elif mode == "nested" and rng.random() < 0.6:
+                choice = rng.random()
+                d = {"k": mid_tag}
+                if choice < 0.5 and inner:
+                    t2 = rng.choice(list(inner))
+                    d["k2"] = t2
+                    exp, status = ("cls", inner[t2]), "inner-known"
+                elif choice < 0.75:
+                    exp, status = ("err", "MissingDiscriminatorError"), "inner-no-key"
+                else:
+                    d["k2"] = rng.choice(pending_tags) if pending_tags and rng.random() < 0.5 else "never-defined"
+                    exp, status = ("err", "SuitableVariantNotFoundError"), "inner-unknown"
             else:
                 model = {}
                 for c in order:
                     info = classes[c]
+                    if info.get("inner") or c == "Mid":
+                        continue
                     is_root = info["parent"] is None
                     if is_root and not eligible_root:
                         continue
@@ -216,7 +267,7 @@ def run_case(seed, tier, rec, st):
                 rec.count("deser_hit" if exp[0] == "cls" else ("deser_unknown_tag" if exp[1].startswith("Suitable") else "deser_missing_key"))
                 if late:
                     rec.count("deser_after_late_definition")
-                rec.nontrivial((mode, wname, tuple((classes[c]["parent"], classes[c]["tag"] is not None) for c in order), status))
+                rec.nontrivial((mode, wname, tuple((classes[c]["parent"], classes[c]["tag"] is not None, bool(classes[c].get("inner"))) for c in order), status))
             else:
                 rec.violation(f"history:{mode}:{wname}:{status}:{exp[0]}->{got[0]}",
                               {"mode": mode, "include_supertypes": inc_super, "source": "".join(fam.sources[2:]),
